@@ -567,6 +567,7 @@ type vObs struct {
 	Truth   map[string][]int    `json:"truth"`
 	Search  map[string][]int    `json:"search"`
 	Shown   map[string][]string `json:"shown"`  // per stream id: tags a fresh view reports as decided+matching
+	ShownAll map[string][]string `json:"shownAll"` // the same through a view that evaluates undecided tags on demand (PrefetchAllTags)
 	Dir     []string            `json:"dir"`
 	Views   map[string]any      `json:"views"`
 	Infos   map[string]any      `json:"infos"`
@@ -585,7 +586,7 @@ func vIDs(ss []*index.Stream) []int {
 
 // from-scratch evaluation with the real query engine on the current data, bottom-up through references
 func (s *vScenario) observe(st *vState) *vObs {
-	o := &vObs{Truth: map[string][]int{}, Search: map[string][]int{}, Shown: map[string][]string{}, Views: map[string]any{}, Infos: map[string]any{}, Status: map[string]any{}, Vis: []vEntry{}}
+	o := &vObs{Truth: map[string][]int{}, Search: map[string][]int{}, Shown: map[string][]string{}, ShownAll: map[string][]string{}, Views: map[string]any{}, Infos: map[string]any{}, Status: map[string]any{}, Vis: []vEntry{}}
 	stt := s.mgr.Status()
 	o.Status = map[string]any{"locks": int(stt.IndexLockCount), "indexes": stt.IndexCount, "importJobs": stt.ImportJobCount,
 		"merge": stt.MergeJobRunning, "tag": stt.TaggingJobRunning, "conv": stt.ConverterJobRunning, "streams": stt.StreamCount}
@@ -617,6 +618,21 @@ func (s *vScenario) observe(st *vState) *vObs {
 		}
 	}
 	sort.Slice(o.Vis, func(i, j int) bool { return o.Vis[i].ID < o.Vis[j].ID })
+	// what the HTTP API shows: a view that evaluates the undecided tags on demand for the streams it lists
+	if len(v.indexes) != 0 {
+		pv := s.mgr.GetView()
+		if err := pv.AllStreams(ctx, func(sc StreamContext) error {
+			tags, err := sc.AllTags()
+			if err != nil {
+				return err
+			}
+			o.ShownAll[fmt.Sprint(sc.Stream().ID())] = tags
+			return nil
+		}, PrefetchAllTags()); err != nil {
+			o.Err = "AllStreams(PrefetchAllTags): " + err.Error()
+		}
+		pv.Release()
+	}
 	// truth: topological order over the definitions as they are now
 	names := vSortedKeys(st.Tags)
 	truthTD := map[string]query.TagDetails{}
